@@ -132,6 +132,41 @@ def fs_setxattr_always_writes(ctx, tag):
               "be stored), while callers log 'Set xattr' and go on" % ", ".join(bad))
 
 
+
+def kill_count_is_successful_signals(ctx):
+    """tryToKillPids returns the number of kill(2) calls that SUCCEEDED: a local counter starting at 0, bumped by one on the kill(2)==0 edge
+    and nowhere else (a pid that was already gone - ESRCH - is not a signalled process).  Shared by C17 (oomd_kill, oomd.kills) and C03
+    ('falls back to the next-best candidate until one kill succeeds': a victim whose pids had all exited yields 0)."""
+    P = ctx.prog
+    # ---- tryToKillPids counts successful kills only
+    tkp = ctx.fn1("Oomd::BaseKillPlugin::tryToKillPids")
+    fp = Flow(P, tkp, cg=ctx.cg)
+    # what the function returns: a local counter that starts at 0 and is bumped by one
+    # on the kill(2)==0 edge and nowhere else
+    rv = {ret_text(tkp, r) for r in returns(tkp)}
+    cvar = rv.pop() if len(rv) == 1 else None
+    init, v = local_init(tkp, cvar) if cvar else (-1, None)
+    ws = local_writes(tkp, cvar) if cvar else []
+    ctx.counters["nrKilled_writes"] = len(ws)
+    ctx.check(v is not None and tkp.text(init) == "0" and not v.get("const"), "count-starts-at-zero", "vardecl", tkp.loc(),
+              "the returned count is a local counter starting at 0",
+              "tryToKillPids returns '%s', which is not a counter starting at 0 (so it cannot be the number of successful kill(2) calls)" % (
+                  cvar if cvar else sorted(rv)))
+    if v is not None and not ws:
+        ctx.violation("count-only-successful-kills", "guarded_by", tkp.loc(),
+                      "the returned count is never incremented on the kill(2)==0 edge")
+    for w in ws:
+        g = fp.guards(w)
+        okk = any(p is True and re.match(r"^\((0 == kill\(.*\)|kill\(.*\) == 0)\)$", k) for k, p in g)
+        n = tkp.nodes[w]
+        one = (n["k"] == "un" and n["op"] == "++") or tkp.text(write_rhs(tkp, w)) == "1"
+        ctx.check(okk and one, "count-only-successful-kills", "guarded_by", tkp.loc(w),
+                  "the count is incremented by one on the kill(2)==0 edge only",
+                  "the count changes outside the kill(2)==0 edge", witness_path(tkp, fp, w))
+    for r in returns(tkp):
+        ctx.check(cvar is not None, "tryToKillPids-returns-count", "return_table", tkp.loc(r),
+                  "returns the count", "returns " + ret_text(tkp, r))
+
 def run(ctx):
     fs_setxattr_always_writes(ctx, "C17")
     from .C19 import stat_update_is_applied_before_return
@@ -247,34 +282,8 @@ def run(ctx):
                     ctx.check(a[2] == "param:killUuid", q + ":value", "provenance", g.loc(i), "writes the given uuid", "writes " + a[2])
         ctx.check(n_sets >= 1 and all(any(nm in w for w in written) for nm in names), q + ":both-copies", "value-shape",
                   rf.loc(), "the trusted. and the user. attribute are both written", "attributes written: " + str(sorted(set(written))))
-    # ---- tryToKillPids counts successful kills only
+    kill_count_is_successful_signals(ctx)
     tkp = ctx.fn1("Oomd::BaseKillPlugin::tryToKillPids")
-    fp = Flow(P, tkp, cg=ctx.cg)
-    # what the function returns: a local counter that starts at 0 and is bumped by one
-    # on the kill(2)==0 edge and nowhere else
-    rv = {ret_text(tkp, r) for r in returns(tkp)}
-    cvar = rv.pop() if len(rv) == 1 else None
-    init, v = local_init(tkp, cvar) if cvar else (-1, None)
-    ws = local_writes(tkp, cvar) if cvar else []
-    ctx.counters["nrKilled_writes"] = len(ws)
-    ctx.check(v is not None and tkp.text(init) == "0" and not v.get("const"), "count-starts-at-zero", "vardecl", tkp.loc(),
-              "the returned count is a local counter starting at 0",
-              "tryToKillPids returns '%s', which is not a counter starting at 0 (so it cannot be the number of successful kill(2) calls)" % (
-                  cvar if cvar else sorted(rv)))
-    if v is not None and not ws:
-        ctx.violation("count-only-successful-kills", "guarded_by", tkp.loc(),
-                      "the returned count is never incremented on the kill(2)==0 edge")
-    for w in ws:
-        g = fp.guards(w)
-        okk = any(p is True and re.match(r"^\((0 == kill\(.*\)|kill\(.*\) == 0)\)$", k) for k, p in g)
-        n = tkp.nodes[w]
-        one = (n["k"] == "un" and n["op"] == "++") or tkp.text(write_rhs(tkp, w)) == "1"
-        ctx.check(okk and one, "count-only-successful-kills", "guarded_by", tkp.loc(w),
-                  "the count is incremented by one on the kill(2)==0 edge only",
-                  "the count changes outside the kill(2)==0 edge", witness_path(tkp, fp, w))
-    for r in returns(tkp):
-        ctx.check(cvar is not None, "tryToKillPids-returns-count", "return_table", tkp.loc(r),
-                  "returns the count", "returns " + ret_text(tkp, r))
     # per-iteration: each pid is signalled at most once
     ls = loop_over(tkp, "pids")
     if ls:
